@@ -44,7 +44,7 @@ enum {
     CF_DUMP,              /* bitmask HX_DUMP_* */
     CF_MEM_SAMPLES,       /* >0: sample live library heap bytes at call boundaries, keep every n-th sample */
     CF_STRICT_RAW,        /* well-formed input: raw *_HEADER_DATA / *_TRAILER_DATA must not follow their side's COMPLETE callback */
-    CF_TX_CFG,            /* install an application-owned copy of the configuration for every transaction (htp_tx_set_config, shared) */
+    CF_TX_CFG,            /* 1: install an application-owned copy of the configuration for every transaction (htp_tx_set_config, shared); 2: a private htp_config_copy() of the connection's configuration per transaction */
     CF_HDR_LIMIT,         /* >0: htp_config_set_number_headers_limit (0: library default, 1024) */
     CF_LEADING_WS,        /* 1..3: htp_config_set_requestline_leading_whitespace_unwanted(HTP_UNWANTED_IGNORE/400/404) */
     CF__N = 40
